@@ -681,4 +681,4 @@ def plan(tier):
           Enum("converge-small-graphs", lambda: enum_topo("thorough"), shards=16),
           Hyp("probe-random", _probe, examples=6000, shards=8),
           Hyp("static-random", lambda: _static(12), examples=40000, shards=8),
-          Hyp("histories", lambda: _topo(12, 20), examples=20000, shards=16)]
+          Hyp("histories", lambda: _topo(12, 20), examples=12000, shards=16)]
